@@ -82,6 +82,19 @@ class Sim:
         ex.sim = self
         return ex
 
+    def drain(self, limit: float = 60.0) -> bool:
+        """Called by a client thread: wait (virtual time) until every invocation the orchestrator knows is final."""
+        import pynenc.runner.thread_runner as trmod
+
+        final = {"SUCCESS", "FAILED", "CONCURRENCY_CONTROLLED_FINAL"}
+        t_end = env.CLOCK.now + limit
+        while env.CLOCK.now < t_end:
+            recs = [self.record(i) for i in self.all_ids()]
+            if all(r is not None and r[0] in final for r in recs):
+                return True
+            trmod.time.sleep(0.05)
+        return False
+
     # -- read-outs ---------------------------------------------------------
     def record(self, inv_id: str) -> tuple | None:
         try:
